@@ -176,7 +176,10 @@ class coo_array(_Base):
             d = list(data) if not isinstance(data, np.ndarray) else list(data.reshape(-1))
             if not (len(d) == len(self.row) == len(self.col)):
                 raise ValueError("row, column, and data array must all be the same length")
-            self.data = sarr(d) if d else np.zeros(0, dtype=object).view(SArr)
+            if isinstance(data, np.ndarray) and data.dtype == object and data.ndim == 1 and dtype is None:
+                self.data = data.view(SArr)  # scipy's constructor (copy=False) aliases an ndarray it is given
+            else:
+                self.data = sarr(d) if d else np.zeros(0, dtype=object).view(SArr)
             if shape is None:
                 shape = _infer_shape(self.row, self.col)
             self.shape = (int(shape[0]), int(shape[1]))
@@ -265,8 +268,9 @@ class csr_array(_Base):
     def tocsc(self, copy=False):
         return csc_array._from_sorted(list(self.data), self._rows(), self.indices, self.shape)
 
-    def tocoo(self, copy=True):
-        return coo_array((self.data.copy(), (self._rows(), self.indices.copy())), shape=self.shape)
+    def tocoo(self, copy=False):
+        # scipy: csr.tocoo(copy=False) is the default and the coo shares the csr's data array
+        return coo_array((self.data.copy() if copy else self.data, (self._rows(), self.indices.copy())), shape=self.shape)
 
     @property
     def T(self):
